@@ -70,6 +70,7 @@ def build(desc):
             # the off time is moved mid-file by a definition delta: seconds_to_start is measured against the current definition
             # a recording may end before the market closes (and then yield nothing at all under a filter)
             "close": rng.random() > 0.15,
+            "p_same_pt": rng.choice((0.0, 0.0, 0.1)),
             "p_reschedule": 0.35,
             "reschedule_ms": (-3_000, -1_000, 2_000, 4_000) if boundary else (-20_000, -5_000, 5_000, 60_000, 500_000),
         }
